@@ -8,6 +8,7 @@ from ..extract import httpflow as xhf
 
 METHODS = [b"GET", b"HEAD", b"PUT", b"PATCH", b"POST", b"DELETE", b"OPTIONS", b"TRACE", b"CONNECT"]
 HOST = b"example.com:8080"
+CLIENT_HOST = b"127.0.0.1:8080"      # requests that go through a clienting.Client (no name resolution in the harness)
 TOKEN = "!#$%&'*+-.^_`|~0123456789ABCDEFGHIJKLMNOPQRSTUVWXYZabcdefghijklmnopqrstuvwxyz"
 SPECIAL = ["content-length", "transfer-encoding"]
 TEXT_ATOMS = ["a", "Z", "0", "xy", " ", "  ", "%", "%41", "%zz", "%2", "+", "&", "=", ";", ":", "@", ",", "!", "*", "(", ")", "[", "]", "\"", "<", ">", "\\", "^", "`",
@@ -47,14 +48,35 @@ def _pathpart(path):
     return p.split(b"?", 1)[0]
 
 
+def _merged_query(spec):
+    """the query arguments a Requester holds after it has built `spec`: its dict updated from the query string written on the path"""
+    exp = dict((k.decode("utf-8"), v.decode("utf-8")) for k, v in spec[2])
+    p = spec[1].decode("utf-8").split("#", 1)[0]
+    if "?" in p:
+        for k, v in parse_qsl(p.split("?", 1)[1], keep_blank_values=True):
+            exp[k] = v
+    return [(k.encode("utf-8"), v.encode("utf-8")) for k, v in exp.items()]
+
+
 def effective(specs):
-    """specs with the path every request is really built from: a `reuse` request (mode 2) takes the stored path of its predecessor"""
+    """specs with what every request is really built from: a `reuse` request (mode 2) takes the stored path of its predecessor; query arguments /
+    headers given as None are NOT passed and so are those of the predecessor (for a request that starts afresh: none)"""
     out = []
     for i, sp in enumerate(specs):
+        sp = tuple(sp)
+        restart = i == 0 or sp[7] is True or sp[7] == 1 or sp[7] == 3
         if sp[7] == 2 and sp[7] is not True and i > 0:
-            sp = (sp[0], _pathpart(out[-1][1])) + tuple(sp[2:])
-        out.append(tuple(sp))
+            sp = (sp[0], _pathpart(out[-1][1])) + sp[2:]
+        if sp[2] is None:
+            sp = sp[:2] + ([] if restart else _merged_query(out[-1]),) + sp[3:]
+        if sp[3] is None:
+            sp = sp[:3] + ([] if restart else list(out[-1][3]),) + sp[4:]
+        out.append(sp)
     return out
+
+
+def route_of(case):
+    return case[3] if len(case) > 3 else 0
 
 
 class C14(core.Check):
@@ -79,7 +101,8 @@ class C14(core.Check):
                   "multipart forms and paths that urlsplit would re-split ('?', '#', leading '//') are declined by the model (Exn.unmodelled) and never generated.")
     quick_n = 1200
     thorough_n = 30000
-    rule = ("case = sequence of 1..6 requests sent over ONE server connection (one Requestant, reused; fresh Requester, Requester.rebuild with path=, or rebuild WITHOUT path= so that the stored path is used again), request stream cut at random points; "
+    rule = ("case = sequence of 1..6 requests sent over ONE server connection (one Requestant, reused; fresh Requester, Requester.rebuild with path=, or rebuild WITHOUT path= so that the stored path is used again; or the same through a clienting.Client: "
+            "constructor arguments with path= as path or as full URL, Client.request with/without path=, Client.transmit(args); query arguments / headers not passed (inherited) | passed empty | passed non-empty), request stream cut at random points; "
             "each request = (method in any case, unicode path with reserved / percent-look-alike / non-ASCII characters, optionally a query string written on the path "
             "('+', escapes in names and values, names colliding with the dict) and a fragment, query dict with arbitrary string keys and values, header list (token names, "
             "values over the full latin-1 range without CR/LF incl. byte sequences that are valid UTF-8, repeated names), body raw | JSON data | urlencoded form | multipart form (non-ASCII field text), explicit Content-Length or not); "
@@ -138,6 +161,16 @@ class C14(core.Check):
             one(b"GET", u("/len"), [], [(b"X-L", b"v" * (65536 - 5))], 0, b"", False),
             one(b"GET", u("/len"), [], [(b"X-L", b"v" * (65536 - 4))], 0, b"", False),
             one(b"GET", u("/" + "p" * (65536 - len("GET / HTTP/1.1"))), [], [], 0, b"", False),
+            # through a clienting.Client: constructor arguments (path / full URL) with path parameters on the last segment, then request() / transmit(args)
+            ("seq", [(b"GET", u("/matrix/cars;color=red"), [], [], 0, b"", False, True), (b"GET", u("/next;v=2"), [(b"a", b"1")], [(b"X-A", b"1")], 0, b"", False, False)], ([], 1), 1),
+            ("seq", [(b"POST", u("/dépôt/file.txt;v=2?k=%26#frag"), [(b"z", b"1")], [(b"X-T", b"t")], 0, b"body", False, 3),
+                     (b"PUT", u("/p;x=1,2"), [], [], 1, b'{"a":1}', False, 4), (b"GET", u("/unused"), [(b"q", b"2")], [], 0, b"", False, 2)], ([], 1), 1),
+            # explicit EMPTY query arguments / headers after non-empty ones are empty; arguments not passed are inherited — Client.request and Requester.rebuild
+            ("seq", [(b"GET", u("/a?x=1"), [(b"token", b"abc")], [(b"X-Auth", b"s3cret")], 0, b"", False, True), (b"GET", u("/b"), [], [], 0, b"", False, False),
+                     (b"GET", u("/c"), [(b"n", b"1")], [(b"X-B", b"2")], 0, b"", False, False), (b"GET", u("/d"), None, None, 0, b"", False, False),
+                     (b"POST", u("/e"), [], None, 0, b"x", False, 2), (b"GET", u("/f"), None, [], 0, b"", False, 4)], ([], 1), 1),
+            ("seq", [(b"GET", u("/a?x=1"), [(b"token", b"abc")], [(b"X-Auth", b"s3cret")], 0, b"", False, True), (b"GET", u("/b"), None, None, 0, b"", False, False),
+                     (b"GET", u("/c"), [], [], 0, b"", False, 2)], ([], 1), 0),
             ("quote", u("a b/é%+~")), ("unquote", b"%41%zz%%4a%4"), ("unquote_plus", b"a+b%2Bc%"), ("parse_qsl", b"a=1&&b&=c&d=%26+x&=&&"), ("parse_qsl", b""),
         ]
 
@@ -217,6 +250,8 @@ class C14(core.Check):
             atoms = TEXT_ATOMS + (UNSAFE if allow_unsafe and rng.random() < 0.04 else [])
             segs.append(self._text(rng, rng.choice([1, 1, 2, 3, 6]), [a for a in atoms if a != "/"]) or "s")
         path = "/" + "/".join(segs)
+        if rng.random() < 0.15:      # path parameters / matrix parameters on the LAST segment
+            path += rng.choice([";v=2", ";color=red,blue", ";a;b=1", ";", ";jsessionid=AB12", ";k=é"])
         if "".join(c for c in path if c not in "\t\r\n").startswith("//"):
             path = "/x" + path[1:]
         if rng.random() < 0.25:
@@ -306,8 +341,35 @@ class C14(core.Check):
                 pa = a[1] if b"?" in a[1] else _pathpart(a[1]) + b"?" + self._pathquery(rng).encode("utf-8")
                 specs[i] = (a[0], pa, qa) + tuple(a[3:])
                 specs[i + 1] = (b[0], b[1], list(qa)) + tuple(b[3:])
+            # every way in: Requester objects used directly, or a clienting.Client (constructor arguments as path or full URL, request(), transmit(args))
+            route = 1 if rng.random() < 0.4 else 0
+            for i, sp in enumerate(specs):
+                fr = sp[7]
+                if fr is True and rng.random() < 0.4:
+                    fr = 3
+                elif fr is False and rng.random() < 0.3:
+                    fr = 4
+                specs[i] = sp[:7] + (fr,)
+            # arguments NOT passed (None: the previous request's are inherited) and arguments passed EMPTY after non-empty ones (nothing is inherited)
+            for i in range(1, m):
+                sp, pv = specs[i], specs[i - 1]
+                if sp[7] in (True, 3) or pv[2] is None or pv[3] is None:
+                    continue
+                plain_prev = pv[4] == 0 and not pv[6] and pv[0].upper() in METHODS and not any(c in pv[1] for c in b"\t\r\n")
+                q, h, ex = sp[2], sp[3], sp[6]
+                k = rng.random()
+                if plain_prev and k < 0.2:
+                    q = None
+                elif k < 0.4:
+                    q = []
+                k = rng.random()
+                if plain_prev and k < 0.2 and sp[4] == 0:
+                    h, ex = None, False
+                elif k < 0.4 and not any(n.lower() == b"content-type" for n, _ in h):
+                    h = []
+                specs[i] = (sp[0], sp[1], q, h, sp[4], sp[5], ex, sp[7])
             cuts = sorted(rng.randrange(0, 400 * m) for _ in range(rng.choice([0, 0, 1, 3, 6])))
-            yield ("seq", specs, (cuts, rng.choice([1, 1, 2, 3])))
+            yield ("seq", specs, (cuts, rng.choice([1, 1, 2, 3])), route)
 
     def request(self, case):
         if case[0] != "seq":
@@ -319,7 +381,8 @@ class C14(core.Check):
                 hs.append((b"Content-Length", (b"00" if explicit == 2 else b"") + str(len(bval)).encode()))
             raw = bval if bkind in (0, 1) else b""
             form = bval if bkind == 2 else []
-            out.append((method, path, [(k, v) for k, v in qargs], [(n, v) for n, v in hs], bkind, raw, [(k, v) for k, v in form], HOST, hf.C14_BOUNDARY))
+            out.append((method, path, [(k, v) for k, v in qargs], [(n, v) for n, v in hs], bkind, raw, [(k, v) for k, v in form],
+                        CLIENT_HOST if route_of(case) else HOST, hf.C14_BOUNDARY))
         return ("c14", out)
 
     # ------------------------------------------------------------------ real code
@@ -340,7 +403,7 @@ class C14(core.Check):
                 return ([(k.encode("latin-1"), v.encode("latin-1"))
                          for k, v in up.parse_qsl(b.decode("latin-1"), keep_blank_values=True, encoding="latin-1")],)
             raise core.Infra("bad case")
-        o = hf.c14_seq_run(case[1], case[2])
+        o = hf.c14_seq_run(case[1], case[2], route_of(case))
         sp = "surrogatepass"
         builts = [b if isinstance(b, bytes) else ("raise", "unmodelled") for b in o["builts"]]
         views, extras = [], []
@@ -605,18 +668,33 @@ class C14(core.Check):
         if case[0] != "seq":
             return len(case[1]) > 0
         odd = lambda b: any(not (chr(c).isalnum() or c in b"/_.-~") for c in b)
-        return len(case[1]) > 1 or any(odd(sp[1]) or any(odd(k) or odd(v) for k, v in sp[2]) or len(sp[3]) >= 2 or bool(sp[5]) for sp in case[1])
+        return len(case[1]) > 1 or any(odd(sp[1]) or any(odd(k) or odd(v) for k, v in sp[2]) or len(sp[3]) >= 2 or bool(sp[5]) for sp in effective(case[1]))
 
     def features(self, case, obs):
         if case[0] != "seq":
             return ["stdlib:" + case[0]]
-        f = [f"seq={min(len(case[1]), 6)}", "fragmented" if case[2][0] else "whole"]
+        f = [f"seq={min(len(case[1]), 6)}", "fragmented" if case[2][0] else "whole", "route:" + ("Client" if route_of(case) else "Requester")]
         eff = effective(case[1])
         for i, sp in enumerate(eff):
             method, path, qargs, headers, bkind, bval, explicit, fresh = sp
+            raw = case[1][i]
+            restart = i == 0 or fresh is True or fresh == 3
+            if route_of(case):
+                f.append("client:" + ("constructor:full-url" if restart and fresh == 3 else "constructor:path" if restart else "transmit(args)" if fresh == 4 else "request()"))
+                if restart and b";" in _pathpart(path).rsplit(b"/", 1)[-1]:
+                    f.append("client:constructor:params-in-last-segment")
+            if not restart:
+                if raw[2] is None:
+                    f.append("qargs:not-passed-inherits" + (":non-empty" if qargs else ""))
+                elif not raw[2] and _merged_query(eff[i - 1]):
+                    f.append("qargs:explicitly-empty-after-non-empty" + (":Client.request" if route_of(case) and fresh != 4 else ""))
+                if raw[3] is None:
+                    f.append("headers:not-passed-inherits" + (":non-empty" if headers else ""))
+                elif not raw[3] and eff[i - 1][3]:
+                    f.append("headers:explicitly-empty-after-non-empty" + (":Client.request" if route_of(case) and fresh != 4 else ""))
             f += ["req", "wf" if self.wf(sp) else "outside-quantifier", "method:" + method.upper().decode("latin-1"),
                   "body:" + (["raw", "json", "form"][bkind] if not self._multipart(sp) else "multipart") + (":explicit-cl" if explicit else ""),
-                  f"qargs={min(len(qargs), 4)}", f"headers={min(len(headers), 6)}", "requester:" + ("fresh" if fresh is True or fresh == 1 or i == 0 else ("reuses-stored-path" + (":quote-alters-it" if any(not (chr(c).isalnum() or c in b"/_.-~") for c in path) else "") if fresh == 2 else "rebuild"))]
+                  f"qargs={min(len(qargs), 4)}", f"headers={min(len(headers), 6)}", "requester:" + ("fresh" if fresh is True or fresh == 1 or fresh == 3 or i == 0 else ("reuses-stored-path" + (":quote-alters-it" if any(not (chr(c).isalnum() or c in b"/_.-~") for c in path) else "") if fresh == 2 else "rebuild"))]
             if b"?" in path:
                 f.append("path:with-query")
                 if any(k in dict(self._expect_query(sp)) for k, _ in qargs):
@@ -641,6 +719,9 @@ class C14(core.Check):
 
     def _shrink_spec(self, sp):
         method, path, qargs, headers, bkind, bval, explicit, fresh = sp
+        if qargs is None or headers is None:
+            yield (method, path, qargs or [], headers or [], bkind, bval, explicit, fresh)
+            return
         mk = lambda **kw: (kw.get("method", method), kw.get("path", path), kw.get("qargs", qargs), kw.get("headers", headers),
                            kw.get("bkind", bkind), kw.get("bval", bval), kw.get("explicit", explicit), fresh)
         for i in range(len(headers)):
@@ -689,14 +770,17 @@ class C14(core.Check):
                 yield (case[0], b[:i] + b[i + 1:])
             return
         specs, sched = case[1], case[2]
+        rt = tuple(case[3:])
+        if rt and rt[0]:
+            yield ("seq", specs, sched)
         if sched != ([], 1):
-            yield ("seq", specs, ([], 1))
+            yield ("seq", specs, ([], 1)) + rt
         if len(specs) > 1:
             for i in range(len(specs)):
-                yield ("seq", specs[:i] + specs[i + 1:], sched)
+                yield ("seq", specs[:i] + specs[i + 1:], sched) + rt
         for i, sp in enumerate(specs):
             for sp2 in self._shrink_spec(sp):
-                yield ("seq", specs[:i] + [sp2] + specs[i + 1:], sched)
+                yield ("seq", specs[:i] + [sp2] + specs[i + 1:], sched) + rt
 
     def mutate(self, rng, case):
         return list(self.shrink(case))[:60]
